@@ -213,7 +213,7 @@ public:
     [[nodiscard]] constexpr auto release() noexcept -> mutex_type*
     {
         _owns = false;
-        return _mutex;
+        return exchange(_mutex, nullptr);
     }
 
     /// \brief Checks whether *this owns a locked mutex or not.
